@@ -273,9 +273,18 @@ func (t *taskManager) executor(currentTask *task) {
 			currentTask.output = nil
 			currentTask.err = safe.NewPanicErr(panicInfo, debug.Stack())
 		}
+		if verifOn {
+			verifGate("tm.exec.prelock", currentTask.nodeKey)
+		}
 		t.mu.Lock()
 		t.l.PushBack(currentTask)
+		if verifOn {
+			verifEmit("tm.push", "tm", t, "task", currentTask, "l", t.l.Len(), "panic", panicInfo != nil)
+		}
 		t.updateChan()
+		if verifOn {
+			verifEmit("tm.pushdone", "tm", t, "task", currentTask, "l", t.l.Len())
+		}
 		t.mu.Unlock()
 	}()
 
@@ -284,6 +293,9 @@ func (t *taskManager) executor(currentTask *task) {
 }
 
 func (t *taskManager) submit(tasks []*task) error {
+	if verifOn {
+		verifEmit("tm.submit", "tm", t, "num", t.num, "tasks", tasks)
+	}
 	if len(tasks) == 0 {
 		return nil
 	}
@@ -331,9 +343,21 @@ func (t *taskManager) waitOne() (*task, bool) {
 		return nil, false
 	}
 	t.num--
+	if verifOn {
+		verifEmit("tm.waitbegin", "tm", t, "num", t.num)
+	}
 	ta := <-t.done
+	if verifOn {
+		verifEmit("tm.recv", "tm", t, "task", ta)
+	}
+	if verifOn {
+		verifGate("tm.wait.postrecv", ta.nodeKey)
+	}
 	t.mu.Lock()
 	t.updateChan()
+	if verifOn {
+		verifEmit("tm.refill", "tm", t, "l", t.l.Len(), "done", len(t.done), "num", t.num)
+	}
 	t.mu.Unlock()
 
 	if ta.err != nil {
